@@ -143,6 +143,7 @@ PROPS = {
         assumptions=NODE_ASSUME + ["acknowledgements from connection handlers are not late (a handler that is alive reports RequestReceived within 1 s): under late acknowledgements a live connection (and with its last connection the peer) is given up, known finding F13",
                                    "Tier 2 simulator: libp2p-swarm / yamux / multistream-select over the memory transport under a harness-owned executor and virtual clock"],
         validate_conn_traces=True,
+        validate_link_traces=True,
         streams=[
             S("node", ["--cases", 100], ["--cases", 5000, "--ops", 150]),
             S("simfault", ["--cases", 150], ["--cases", 8000, "--nodes", 4, "--actions", 50]),
@@ -157,6 +158,7 @@ PROPS = {
                                    "Tier 2 simulator: libp2p-swarm / yamux / multistream-select over the memory transport under a harness-owned executor and virtual clock"],
         validate_handler_traces=True,
         validate_conn_traces=True,
+        validate_link_traces=True,
         streams=[
             S("sim", ["--cases", 120], ["--cases", 8000, "--nodes", 4, "--actions", 50]),
             S("simfault", ["--cases", 150, "--conns", 3], ["--cases", 8000, "--conns", 3, "--nodes", 4, "--actions", 50]),
@@ -169,6 +171,7 @@ PROPS = {
         model_scope=NODE_SCOPE + "; " + HANDLER_SCOPE,
         assumptions=NODE_ASSUME + ["Tier 2 simulator as in C05"],
         validate_conn_traces=True,
+        validate_link_traces=True,
         streams=[
             S("node", ["--cases", 100, "--peers", 2], ["--cases", 5000, "--peers", 2, "--ops", 150]),
             S("sim", ["--cases", 120, "--conns", 3], ["--cases", 6000, "--conns", 3, "--nodes", 4]),
